@@ -198,6 +198,16 @@ def gen_cases(rng, tier):
             ops.insert(rng.randint(0, len(ops)), {"op": "sample"})
         ops.append({"op": rng.choice(["sample", "solve"])})
         cases.append({"spec": spec, "ops": ops, "seed": rng.getrandbits(32)})
+    # multi-stage: the first transcription is triggered by a query on a stage object, not on the Ocp
+    from . import c12
+    for mc in [c_ for c_ in c12.gen_cases(rng, "quick" if tier == "quick" else "thorough") if c_.get("kind") != "spline_sub"][
+            : (20 if tier == "quick" else 200)]:
+        mc["kind"] = "stage_query"
+        mc["late"] = False
+        mc["query_stage"] = rng.randrange(len(mc["stages"]))
+        mc["query"] = rng.choice(["sample", "value"])
+        mc["T_guess"] = ocpgen.rnd(rng, 0.4, 3.0, 3)
+        cases.append(mc)
     return cases
 
 
@@ -247,7 +257,96 @@ def snapshot(ocp):
             "T_free": isinstance(ocp._T, rockit.FreeTime), "t0_free": isinstance(ocp._t0, rockit.FreeTime)}
 
 
+def stage_declarations(st):
+    """what the user declared on a stage, as far as a transcription could touch it"""
+    import rockit
+    return {"states": len(st.states), "qstates": len(getattr(st, "qstates", [])), "controls": len(st.controls),
+            "algebraics": len(st.algebraics),
+            "constraints": {k: len(v) for k, v in st._constraints.items() if len(v)}, "objective": str(st._objective),
+            "T": "FreeTime" if isinstance(st._T, rockit.FreeTime) else str(st._T),
+            "t0": "FreeTime" if isinstance(st._t0, rockit.FreeTime) else str(st._t0),
+            "parameters": {k: len(v) for k, v in st.parameters.items() if len(v)},
+            "variables": {k: len(v) for k, v in st.variables.items() if len(v)}, "guesses": len(st._initial)}
+
+
+def run_stage_query(case):
+    """multi-stage OCP whose first transcription is triggered through a stage object (stage.sample / stage.value): the
+    declarations stay what the user wrote, the NLP is the one an Ocp-level transcription gives, and a horizon guess given
+    afterwards on the stage is where that stage starts"""
+    import rockit
+    from ..obs import nlp
+    from . import c12
+    res = {"sig": "stage_query|%s|%s|%s" % (case["mode"], case["query"], "||".join(
+        C.config_sig(sp).rsplit("|", 1)[0] for sp in case["stages"])), "evals": 0, "violations": [],
+        "counters": {"stage_queries": 0, "declaration_snapshots": 0}}
+    rng = np.random.default_rng(case["seed"])
+    try:
+        ocp, pv, pp, builts, tmpl, tmpl_snap, _ = C.call("declare", c12.build_multistage, case)
+        ocpR, _, _, builtsR, _, _, _ = C.call("declare", c12.build_multistage, copy.deepcopy(case))
+        before = [stage_declarations(b.stage) for b in builts] + [stage_declarations(ocp)]
+        b = builts[case["query_stage"]]
+        s0 = b.spec["states"][0]
+        if case["query"] == "sample":
+            C.call("stage.sample (first transcription)", b.stage.sample, b.syms[s0["name"]], grid="control")
+        else:
+            C.call("stage.value (first transcription)", b.stage.value, b.stage.at_tf(b.syms[s0["name"]]))
+        res["counters"]["stage_queries"] += 1
+        after = [stage_declarations(b_.stage) for b_ in builts] + [stage_declarations(ocp)]
+    except C.RockitRaised as e:
+        res["violations"].append(C.exc_violation(ID, e, "stage_query"))
+        return res
+    res["evals"] += 1
+    res["counters"]["declaration_snapshots"] += len(before)
+    for k, (a_, b_) in enumerate(zip(before, after)):
+        if a_ != b_:
+            diff = {key: (a_[key], b_[key]) for key in a_ if a_[key] != b_[key]}
+            res["violations"].append({
+                "kind": "declarations-altered", "mech": "C13|declarations-altered-by-transcription|via-stage-query",
+                "detail": "%s: declarations before / after a first transcription triggered by stage.%s: %s" % (
+                    "stage %d" % k if k < len(builts) else "the Ocp", case["query"], diff)})
+            return res
+    # a horizon guess given on a stage afterwards
+    tgt = [k for k, b_ in enumerate(builts) if b_.spec["T"]["kind"] == "free"]
+    try:
+        if tgt:
+            for o_, bs_ in ((ocp, builts), (ocpR, builtsR)):
+                C.call("stage.set_initial(T)", bs_[tgt[0]].stage.set_initial, bs_[tgt[0]].stage.T, case["T_guess"])
+        v1 = C.call("transcribe", nlp.NlpView, ocp)
+        v2 = C.call("transcribe(reference)", nlp.NlpView, ocpR)
+    except C.RockitRaised as e:
+        res["violations"].append(C.exc_violation(ID, e, "stage_query"))
+        return res
+    res["evals"] += 1
+    if (v1.nx, v1.ng, v1.np) != (v2.nx, v2.ng, v2.np):
+        res["violations"].append({"kind": "nlp-size", "mech": "C13|stage-query-history|nlp-size",
+                                  "detail": "sizes %s vs %s of the same OCP transcribed at Ocp level" % (
+                                      (v1.nx, v1.ng, v1.np), (v2.nx, v2.ng, v2.np))})
+        return res
+    if v1.nx and np.max(np.abs(v1.x0 - v2.x0)) > 1e-12:
+        res["violations"].append({
+            "kind": "start", "mech": "C13|stage-query-history|start-point",
+            "detail": "start point differs by %.3g from the same OCP never queried through a stage%s" % (
+                np.max(np.abs(v1.x0 - v2.x0)), " (guess %g for T of stage %d given after the query)" % (
+                    case["T_guess"], tgt[0]) if tgt else "")})
+        return res
+    for _ in range(2):
+        w = v1.random_point(rng)
+        f1, g1, lb1, ub1 = v1.eval(w, v1.p0)
+        f2, g2, lb2, ub2 = v2.eval(w, v2.p0)
+        res["evals"] += 1
+        if not all(np.allclose(a_, b_, rtol=1e-11, atol=1e-11, equal_nan=True) for a_, b_ in
+                   ((f1, f2), (g1, g2), (lb1, lb2), (ub1, ub2))):
+            res["violations"].append({"kind": "nlp", "mech": "C13|stage-query-history|nlp-functions",
+                                      "detail": "f %.12g vs %.12g" % (f1, f2)})
+            return res
+    res["nontrivial"] = True
+    res["sample"] = {"mode": case["mode"], "query": case["query"], "stage": case["query_stage"], "T_guess_on": tgt[:1]}
+    return res
+
+
 def run_case(case):
+    if case.get("kind") == "stage_query":
+        return run_stage_query(case)
     import casadi as ca
     from ..gen import build
     from ..obs import nlp
